@@ -107,3 +107,52 @@ MC_Empty == {}
         return res, verdicts
     finally:
         shutil.rmtree(d, ignore_errors=True)
+
+
+def run_purgeops(name, cmd='empty', entries=('e1', 'e2', 'e3'), trees=('e2',), orphans=('o1',), selected=('e1', 'e2'),
+                 crossvol=(), mutant='none', workers=4, timeout=900):
+    mod = '''---- MODULE MC_%s ----
+EXTENDS PurgeOps
+MC_Entries == %s
+MC_Trees == %s
+MC_Orphans == %s
+MC_Selected == %s
+MC_CrossVol == %s
+====
+''' % (name, tla_set(map(tla_str, entries)), tla_set(map(tla_str, trees)), tla_set(map(tla_str, orphans)),
+       tla_set(map(tla_str, selected)), tla_set(map(tla_str, crossvol)))
+    cfg = ('SPECIFICATION Spec\nCONSTANTS Entries <- MC_Entries Trees <- MC_Trees Orphans <- MC_Orphans Selected <- MC_Selected '
+           'CrossVol <- MC_CrossVol\nCONSTANTS Cmd = "%s" Mutant = "%s"\n'
+           'INVARIANT InfoLast\nINVARIANT RestoreNeverLoses\nINVARIANT FrameOK\nINVARIANT DoneOK\nPROPERTY RerunCompletes\n'
+           'CHECK_DEADLOCK FALSE\n' % (cmd, mutant))
+    return tlc.run_tlc('MC_' + name, cfg_text=cfg, workers=workers, timeout=timeout, extra_files={'MC_%s.tla' % name: mod})
+
+
+PURGE_INV = ['InfoLast', 'RestoreNeverLoses', 'Frame', 'DoneOK', 'Purged']
+
+
+def judge_purge(obs, workers=4, timeout=900):
+    import json, os, re, shutil, tempfile
+    mod = '''---- MODULE MC_PurgeTrace ----
+EXTENDS PurgeTrace
+MC_Entries == {"e1", "e2", "e3", "e4"}
+MC_Trees == {"e2"}
+MC_Orphans == {"o1", "o2"}
+MC_Empty == {}
+====
+'''
+    cfg = ('INIT InitP\nNEXT NextP\nCONSTANTS Entries <- MC_Entries Trees <- MC_Trees Orphans <- MC_Orphans Selected <- MC_Empty '
+           'CrossVol <- MC_Empty\nCONSTANTS Cmd = "any" Mutant = "none"\nCHECK_DEADLOCK FALSE\n')
+    d = tempfile.mkdtemp(prefix='vpg-', dir='/dev/shm' if os.path.isdir('/dev/shm') else None)
+    try:
+        p = os.path.join(d, 'obs.json')
+        with open(p, 'w') as f:
+            json.dump([{k: o[k] for k in ('info', 'pay', 'dest', 'done', 'cmd', 'selected', 'purged')} for o in obs], f)
+        res = tlc.run_tlc('MC_PurgeTrace', cfg_text=cfg, workers=workers, timeout=timeout, env={'TRACE_FILE': p},
+                          extra_files={'MC_PurgeTrace.tla': mod})
+        verdicts = {}
+        for m in re.finditer(r'<<\s*"##INV",\s*(\d+),\s*(TRUE|FALSE),\s*(TRUE|FALSE),\s*(TRUE|FALSE),\s*(TRUE|FALSE),\s*(TRUE|FALSE)\s*>>', res.raw):
+            verdicts[int(m.group(1))] = dict(zip(PURGE_INV, [g == 'TRUE' for g in m.groups()[1:]]))
+        return res, verdicts
+    finally:
+        shutil.rmtree(d, ignore_errors=True)
